@@ -52,6 +52,27 @@ pub fn serde_rt<T: Serialize + DeserializeOwned + PartialEq + Debug>(ctx: &mut C
         Ok(Err(e)) => ctx.violation(&format!("json-serialize-failed/{}", name), json!({"err": e.to_string(), "value": short(v)})),
         Err(p) => ctx.panic_violation(&format!("serde_json::to_string::<{}>", name), &p, json!({"value": short(v)})),
     }
+    // the same representations read through deserializers that cannot lend the input (a reader, a
+    // value tree): strings arrive owned/transient there, which a Deserialize impl must accept too
+    if ctx.n_evals() % 3 == 0 {
+        ctx.eval();
+        let routes: [(&str, Box<dyn Fn() -> Option<Result<T, String>>>); 3] = [
+            ("json-reader", Box::new(|| serde_json::to_string(v).ok().map(|s| serde_json::from_reader::<_, T>(s.as_bytes()).map_err(|e| e.to_string())))),
+            ("json-value", Box::new(|| serde_json::to_value(v).ok().map(|val| serde_json::from_value::<T>(val).map_err(|e| e.to_string())))),
+            ("cbor-reader", Box::new(|| serde_cbor::to_vec(v).ok().map(|b| serde_cbor::from_reader::<T, _>(&b[..]).map_err(|e| e.to_string())))),
+        ];
+        for (route, f) in routes.iter() {
+            match guard(|| f()) {
+                Ok(Some(Ok(back))) => {
+                    ctx.check(back == *v, &format!("{}-roundtrip-differs/{}", route, name), || json!({"value": short(v), "back": short(&back)}));
+                }
+                Ok(Some(Err(e))) => ctx.violation(&format!("{}-own-output-rejected/{}/{}", route, name, err_class(&e)), json!({"err": e, "value": short(v)})),
+                Ok(None) => {}
+                Err(p) => ctx.panic_violation(&format!("{}::<{}>", route, name), &p, json!({"value": short(v)})),
+            }
+        }
+        ctx.count("non-borrowing-deserializer-routes");
+    }
     // CBOR (binary self-describing; not human readable)
     ctx.eval();
     match guard(|| serde_cbor::to_vec(v)) {
@@ -248,6 +269,7 @@ pub fn run(ctx: &mut Ctx) {
                 for t in super::c03::ECDSA_TYPES {
                     both!("EcdsaSighashType", t);
                 }
+                both!("SchnorrSighashType", SchnorrSighashType::Reserved);
                 for t in super::c03::SCHNORR_TYPES {
                     both!("SchnorrSighashType", t);
                 }
